@@ -47,7 +47,7 @@ def tables_json(layouts):
             for tid, cols in layouts.items()]
 
 
-def make_file(r, layouts, expanded, enc, blocked, trailer=True, nrows=None, noconf='IP9999T1'):
+def make_file(r, layouts, expanded, enc, blocked, trailer=True, nrows=None, noconf='IP9999T1', grouped=None):
     tids = list(layouts) + [noconf]          # one table present in the file without configuration
     subs = {}
     for t in tids:
@@ -85,7 +85,7 @@ def make_file(r, layouts, expanded, enc, blocked, trailer=True, nrows=None, noco
     width = max([19] + [c['end'] for cols in layouts.values() for c in cols.values()]) + r.choice((0, 5, -3, -12, -30))
     width = max(width, 22)
     for t in tids:
-        for i in range(r.randrange(0, (nrows or 12) + 1)):
+        for i in range(r.randrange(0, (nrows or 12) + 1) if grouped is None else grouped.get(t, 3)):
             k = r.randrange(200)
             body = ROWCODE[k:k + width - 19]
             ts10, act = '%010d' % r.randrange(10 ** 10), r.choice('AIN')
@@ -93,8 +93,9 @@ def make_file(r, layouts, expanded, enc, blocked, trailer=True, nrows=None, noco
                 data.append(ts10 + act + t + body)
             else:
                 data.append(ts10[:7] + act + (subs2 if t == twice and i % 2 else subs[t]) + body)
-    r.shuffle(data)
-    if r.random() < 0.5:
+    if grouped is None:
+        r.shuffle(data)
+    if grouped is None and r.random() < 0.5:
         # trailer rows of data tables (they are not the index trailer)
         for t in r.sample(tids, 2):
             data.insert(r.randrange(len(data) + 1), 'TRAILER RECORD %s  %08d' % (t, 7))
@@ -157,7 +158,14 @@ def _drive(args):
         pk = [t for t in PKG['mci_parameter_tables'] if t not in layouts]
         if tid % 3 and tid % 2 and pk:
             noconf = pk[(tid // 6) % len(pk)]
-        fdata = make_file(r, layouts, expanded, enc, blocked, trailer, nrows=50 if tid % 10 == 0 else 8, noconf=noconf)
+        grouped = None
+        if tid % 40 == 7:
+            # the shape of a production extract: rows grouped by table, more than a thousand rows of one table in
+            # front of and behind the few rows of another
+            names = list(layouts)
+            grouped = {names[0]: 1150, names[1]: 3, names[-1]: 1150 if len(names) > 2 else 3, noconf: 1100}
+            trailer = True
+        fdata = make_file(r, layouts, expanded, enc, blocked, trailer, nrows=50 if tid % 10 == 0 else 8, noconf=noconf, grouped=grouped)
         tables = list(layouts) + ([noconf] if tid % 7 == 3 or noconf != 'IP9999T1' else [])
         for table in tables:
             via_csv = (tid + len(table) + tables.index(table)) % 3 == 0 and table in layouts
